@@ -14,12 +14,16 @@ LEVEL = "fault_enumeration"
 RULE = (
     "Program family main -> mid(check_valid='shallow') -> child -> leaf (generated bodies: lazy call "
     "chains, two callees, catch of a raising leaf, arithmetic; main sometimes shallow too). (1) For "
-    "the first recording run of each family EVERY backend commit point x {die before, die after, one "
-    "transient OperationalError} is enumerated (exhaustive per workload); after each fault the "
+    "the first recording run of each family — on an empty repository and on a repository that "
+    "received the call graph by push from another one — EVERY backend commit point x {die before, die "
+    "after, one transient OperationalError} and EVERY SQL statement executed inside a db_retry-wrapped "
+    "backend method x {one transient OperationalError} is enumerated (exhaustive per workload in the "
+    "thorough tier; quick takes a seed-dependent third of the statement points and of the imported "
+    "phase); after each fault the "
     "database is reopened (after death) and, for every task i of the subtree, the history 'edit task "
     "i -> run' must return what a fresh backend returns for the edited code (then 'revert -> run' "
     "the original result). (2) Hypothesis-generated histories over {run, edit any of mid/child/leaf, "
-    "revert, fault at commit k of a run, transfer all records into a fresh repository by push/pull or "
+    "revert (the root included), fault at commit k / statement s of a run, transfer all records into a fresh repository by push/pull or "
     "by export -> JSON lines -> import and continue there}: every completed run must equal the "
     "fresh-backend run of the same code. Structural companion reported with failures: call nodes "
     "that a shallow lookup may return and that have no CallSubtreeTask rows. Non-trivial = a subtree "
@@ -31,7 +35,7 @@ ASSUMPTIONS = [
 ]
 MANIFEST = {
     "technique": "exhaustive fault enumeration on the recording run + model-based histories with record transfer, differential vs fresh backend",
-    "text": "fault_enumeration: every commit point x 3 fault kinds of the first recording run, each followed by an edit of every subtree task; plus generated histories mixing edits, faults and transfers",
+    "text": "fault_enumeration: every commit point x 3 fault kinds and every retried SQL statement x 1 of the first recording run (on an empty and on an imported repository), each followed by an edit of every subtree task; plus generated histories mixing edits, faults and transfers",
 }
 SHARDS = 16
 
@@ -89,16 +93,23 @@ def families(draw):
 def histories(draw):
     w = draw(families())
     ops = [["run", []]]
+    if draw(st.integers(0, 1)) == 0:
+        # two different tasks edited one after the other with a run in between: the second run's
+        # re-recorded nodes hang over cache-hit children, whose subtree tasks come from the database
+        a = draw(st.sampled_from([0, 0, 1, 1, 2]))
+        b = draw(st.sampled_from([i for i in (2, 3, 3, 1) if i != a]))
+        ops += [["edit", a, draw(st.integers(1, 9))], ["run", []], ["edit", b, draw(st.integers(1, 9))], ["run", []]]
     for _ in range(draw(st.integers(2, 8))):
         c = draw(st.sampled_from(["run", "edit", "edit", "revert", "fault", "transfer"]))
         if c == "run":
             ops.append(["run", draw(st.lists(st.integers(0, 3), max_size=8))])
         elif c == "edit":
-            ops.append(["edit", draw(st.integers(1, 3)), draw(st.integers(1, 9))])
+            ops.append(["edit", draw(st.integers(0, 3)), draw(st.integers(1, 9))])
         elif c == "revert":
-            ops.append(["revert", draw(st.integers(1, 3))])
+            ops.append(["revert", draw(st.integers(0, 3))])
         elif c == "fault":
-            ops.append(["fault", draw(st.integers(1, 40)), draw(st.sampled_from(["before", "after", "operr"]))])
+            kind = draw(st.sampled_from(["before", "after", "operr", "stmt", "stmt"]))
+            ops.append(["fault", draw(st.integers(1, 120 if kind == "stmt" else 40)), kind])
         else:
             ops.append(["transfer", draw(st.sampled_from(["push", "export"]))])
         if c in ("edit", "revert", "transfer", "fault") and draw(st.booleans()):
@@ -116,8 +127,17 @@ def outcome(r):
     return (r.kind, str(r.payload)[:80])
 
 
+_fresh_memo: dict = {}
+
+
 def fresh_result(fam, arg):
-    return outcome(schedrun.run_program(None, decisions=[], expr=fam.root_expr(arg)))
+    """What a fresh backend returns for the current code (memoised per code table: tasks are deterministic)."""
+    key = (codefam.canon(fam.variants), arg)
+    if key not in _fresh_memo:
+        if len(_fresh_memo) > 5000:
+            _fresh_memo.clear()
+        _fresh_memo[key] = outcome(schedrun.run_program(None, decisions=[], expr=fam.root_expr(arg)))
+    return _fresh_memo[key]
 
 
 def orphans(backend) -> int:
@@ -139,14 +159,50 @@ def check_run(case, fam, arg, backend, decisions, what, tag):
     return r
 
 
-def fault_then_edits(ctx: Ctx, w, k: int, kind: str, only=None) -> str:
-    """Recording run with one fault at commit k, then edit each subtree task in turn."""
-    case = {"family": w, "k": k, "kind": kind}
+def imported_backend(w, how="push"):
+    """A repository that received the fault-free recording of family w from another repository."""
     fam = codefam.Family(len(w["init"]))
     fam.install_all(w["init"])
-    b = dbx.fresh_backend()
-    fs = dbx.FaultySession(b, at=k, kind=kind)
-    tag = {"before": "interrupted", "after": "interrupted", "operr": "retried"}[kind]
+    src = dbx.fresh_backend()
+    try:
+        schedrun.run_program(None, decisions=[], expr=fam.root_expr(w["arg"]), backend=src)
+        dst = dbx.fresh_backend()
+        if how == "push":
+            transfer.sync(src, dst)
+        else:
+            transfer.import_lines(dst, transfer.export_lines(src))
+        return dst
+    finally:
+        dbx.discard_backend(src)
+
+
+def copy_backend(backend):
+    import shutil
+
+    src = backend.db_uri[len("sqlite:///"):]
+    backend.session.commit()
+    dst = dbx.new_db_path()
+    shutil.copyfile(src, dst)
+    return dbx.open_backend(dst)
+
+
+def fault_then_edits(ctx: Ctx, w, k: int, kind: str, only=None, imported=None, template=None) -> str:
+    """Recording run with one fault at commit k (kind before/after/operr) or at statement k of the
+    retried operations (kind stmt), then edit each subtree task in turn. With `imported` the
+    recording run happens in a repository that received the call graph by transfer."""
+    case = {"family": w, "k": k, "kind": kind}
+    if imported:
+        case["imported"] = imported
+    fam = codefam.Family(len(w["init"]))
+    fam.install_all(w["init"])
+    if imported:
+        b = copy_backend(template) if template is not None else imported_backend(w, imported)
+    else:
+        b = dbx.fresh_backend()
+    fs = dbx.FaultyStatements(b, at=k) if kind == "stmt" else dbx.FaultySession(b, at=k, kind=kind)
+    tag = {"before": "interrupted", "after": "interrupted", "operr": "retried", "stmt": "retried"}[kind]
+    if imported:
+        tag = "imported+" + tag
     try:
         try:
             r = schedrun.run_program(None, decisions=[], expr=fam.root_expr(w["arg"]), backend=b)
@@ -157,11 +213,11 @@ def fault_then_edits(ctx: Ctx, w, k: int, kind: str, only=None) -> str:
         fs.remove()
         if died:
             b = dbx.reopen(b)
-        elif kind == "operr" and fs.fired is not None and r.kind == "err" and fresh_result(fam, w["arg"])[0] != "err":
+        elif kind in ("operr", "stmt") and fs.fired is not None and r.kind == "err" and fresh_result(fam, w["arg"])[0] != "err":
             return site          # the run itself failed on the transient error: C22's subject
         # complete the recording, then edit every task below the shallow one
         check_run(case, fam, w["arg"], b, [], f"re-run after fault {kind}@{site}", tag)
-        for i in range(1, len(w["init"]) - 1):
+        for i in range(0, len(w["init"]) - 1):
             if i not in fam.uses() or (only is not None and i not in only):
                 continue
             orig = fam.variants[i]
@@ -178,37 +234,56 @@ def fault_then_edits(ctx: Ctx, w, k: int, kind: str, only=None) -> str:
             pass
 
 
-def count_commits(w) -> int:
+def count_points(w, backend=None) -> tuple:
+    """(commit points, statements inside retried operations) of the fault-free recording run."""
     fam = codefam.Family(len(w["init"]))
     fam.install_all(w["init"])
-    b = dbx.fresh_backend()
-    try:
-        fs = dbx.FaultySession(b)
-        schedrun.run_program(None, decisions=[], expr=fam.root_expr(w["arg"]), backend=b)
-        fs.remove()
-        return fs.count
-    finally:
-        dbx.discard_backend(b)
+    counts = []
+    for cls in (dbx.FaultySession, dbx.FaultyStatements):
+        b = dbx.fresh_backend() if backend is None else copy_backend(backend)
+        try:
+            fs = cls(b)
+            schedrun.run_program(None, decisions=[], expr=fam.root_expr(w["arg"]), backend=b)
+            fs.remove()
+            counts.append(fs.count)
+        finally:
+            dbx.discard_backend(b)
+    return tuple(counts)
 
 
 def enumerate_family(ctx: Ctx, w) -> None:
-    n = count_commits(w)
-    # quick tier: after each fault edit the two deepest tasks of the subtree; thorough: every task
+    """Every fault point of the first recording run, on an empty repository and on one that received
+    the call graph by transfer. Thorough: all points, every subtree task edited. Quick: all commit
+    points of the empty-repository phase; of the statement points and of the imported phase a
+    seed-dependent third; the two deepest tasks edited."""
     only = None if ctx.thorough else {len(w["init"]) - 2, len(w["init"]) - 3}
-    for k in range(1, n + 1):
-        for kind in ("before", "after", "operr"):
-            site = "?"
-            try:
-                site = fault_then_edits(ctx, w, k, kind, only)
-            except Violation as v:
-                ctx.case({"family": w["name"], "k": k, "kind": kind, "init": w["init"]}, labels=[f"kind:{kind}", "violating"], nontrivial=True)
-                if not ctx.absorb(v):
-                    raise
-                continue
-            ctx.case({"family": w["name"], "k": k, "kind": kind, "init": w["init"]},
-                     labels=[f"kind:{kind}", "site:" + site.split("#")[0].split("<")[0]], nontrivial=site != "not-reached")
+    stride = 1 if ctx.thorough else 3
+    for imported in (None, "push"):
+        template = imported_backend(w, imported) if imported else None
+        try:
+            n, ns = count_points(w, template)
+            points = [(k, kind) for k in range(1, n + 1) for kind in ("before", "after", "operr")]
+            if imported:
+                points = [p for i, p in enumerate(points) if (i + ctx.seed) % stride == 0]
+            points += [(k, "stmt") for k in range(1, ns + 1) if (k + ctx.seed) % stride == 0]
+            for k, kind in points:
+                site = "?"
+                cs = {"family": w["name"], "k": k, "kind": kind, "init": w["init"], "imported": imported}
+                try:
+                    site = fault_then_edits(ctx, w, k, kind, only, imported, template)
+                except Violation as v:
+                    ctx.case(cs, labels=[f"kind:{kind}", f"imported:{imported}", "violating"], nontrivial=True)
+                    if not ctx.absorb(v):
+                        raise
+                    continue
+                ctx.case(cs, labels=[f"kind:{kind}", f"imported:{imported}", "site:" + site.split("#")[0].split("<")[0]],
+                         nontrivial=site != "not-reached")
+            ctx.coverage_extra["commit_points"] = ctx.coverage_extra.get("commit_points", 0) + n
+            ctx.coverage_extra["statement_points"] = ctx.coverage_extra.get("statement_points", 0) + ns
+        finally:
+            if template is not None:
+                dbx.discard_backend(template)
     ctx.coverage_extra["families_enumerated"] = ctx.coverage_extra.get("families_enumerated", 0) + 1
-    ctx.coverage_extra["commit_points"] = ctx.coverage_extra.get("commit_points", 0) + n
 
 
 def run_history(ctx: Ctx, case) -> dict:
@@ -233,7 +308,7 @@ def run_history(ctx: Ctx, case) -> dict:
                 if info["disturbed"]:
                     info["edited_after"] = True
             elif op[0] == "fault":
-                fs = dbx.FaultySession(b, at=op[1], kind=op[2])
+                fs = dbx.FaultyStatements(b, at=op[1]) if op[2] == "stmt" else dbx.FaultySession(b, at=op[1], kind=op[2])
                 try:
                     try:
                         schedrun.run_program(None, decisions=[], expr=fam.root_expr(w["arg"]), backend=b)
@@ -243,7 +318,7 @@ def run_history(ctx: Ctx, case) -> dict:
                 finally:
                     fs.remove()
                 if fs.fired:
-                    info["tag"] = "interrupted" if op[2] != "operr" else "retried"
+                    info["tag"] = "interrupted" if op[2] in ("before", "after") else "retried"
                     info["disturbed"] = True
                     info["edited_after"] = False
                 if died:
@@ -283,7 +358,7 @@ def check(ctx: Ctx) -> None:
     for w in fams:
         enumerate_family(ctx, w)
     ctx.coverage_extra["exhaustive"] = True
-    ctx.given(histories(), lambda c: run_history_case(ctx, c), ctx.n(30, 1600))
+    ctx.given(histories(), lambda c: run_history_case(ctx, c), ctx.n(40, 1600))
 
 
 def replay(ctx: Ctx, case) -> None:
@@ -291,4 +366,4 @@ def replay(ctx: Ctx, case) -> None:
     if case.get("history"):
         run_history(ctx, case)
     else:
-        fault_then_edits(ctx, case["family"], case["k"], case["kind"])
+        fault_then_edits(ctx, case["family"], case["k"], case["kind"], imported=case.get("imported"))
